@@ -324,7 +324,16 @@ def bp_spec(callables, enums, consts):
         classes.append({'name': cls, 'attrs': attrs, 'derived': der, 'ops': ops})
     functions = [(c['name'], c['ret'], [(n, t) for n, t in c['params']], c['text']) for c in callables if c['kind'] == 'function']
     bridges = [(c['name'], c['ret'], [(n, t) for n, t in c['params']], c['text']) for c in callables if c['kind'] == 'bridge']
-    ees = [('EE1', bridges)] if bridges else []
+    ees = []
+    for c in callables:
+        if c['kind'] == 'bridge':
+            row = (c['name'], c['ret'], [(n, t) for n, t in c['params']], c['text'])
+            for kl, rows in ees:
+                if kl == c['ns']:
+                    rows.append(row)
+                    break
+            else:
+                ees.append((c['ns'], [row]))
     return {'classes': classes, 'functions': functions, 'ees': ees, 'enums': enums, 'consts': consts,
             'assocs': [(1, 'B', 'A_ID', True, True, 'A', 'ID', False, True)]}
 
@@ -708,18 +717,56 @@ def add_clash(rng, callables, enums, consts, same=True):
         args.append([n, lit])
     call = ['callf', c['name'], args]
     twin = c['name'] if same else r.choice([c['name'].upper(), c['name'].capitalize()])
-    if r.random() < 0.5 or not enums:
+    lvl = max(x['level'] for x in callables)
+
+    def small(kind, name, ns, value):
+        hb = [['return', ['int', value]]]
+        h = _sig(kind, name, ns, [], 'integer', True)
+        h.update(recursive=False, level=lvl, body=hb, text=G.render(hb), cost=1)
+        callables.append(h)
+        return h
+    what = r.choice(['constant', 'enumeration', 'external entity', 'enumeration/external entity',
+                     'constant/external entity', 'class/function'])
+    if what == 'enumeration' and not enums:
+        what = 'constant'
+    pre = [['assign', 'v1', call]]
+    if what == 'constant':
         consts.append((twin, 'integer', '7'))
         other = ['var', twin]
-        what = 'constant'
-    else:
+    elif what == 'enumeration':
         names = list(enums[0][1])
         enums.append((twin, names))
         other = ['enum', twin, names[-1]]
-        what = 'enumeration'
-    body = [['assign', 'v1', call], ['return', ['bin', '+', ['var', 'v1'], other]]]
+    elif what == 'external entity':
+        # an external entity whose key letters are the function's name: `::f()` and `f::bq()`
+        small('bridge', 'bq', twin, 4)
+        other = ['calln', twin, 'bq', []]
+    elif what == 'enumeration/external entity':
+        # an enumeration and an external entity of one name: `E::red` and `E::bq()`
+        en = twin + 'E'
+        names = list(ENUMERATORS[:3])
+        enums.append((en, names))
+        small('bridge', 'bq', en if same else r.choice([en.upper(), en.capitalize()]), 4)
+        pre.append(['assign', 'v2', ['calln', callables[-1]['ns'], 'bq', []]])
+        other = ['bin', '+', ['var', 'v2'], ['enum', en, names[-1]]]
+    elif what == 'constant/external entity':
+        kn = twin + 'K'
+        consts.append((kn, 'integer', '7'))
+        small('bridge', 'bq', kn if same else r.choice([kn.upper(), kn.capitalize()]), 4)
+        pre.append(['assign', 'v2', ['calln', callables[-1]['ns'], 'bq', []]])
+        other = ['bin', '+', ['var', 'v2'], ['var', kn]]
+    else:
+        # a function named like a class: `::A()`, `A::cq()` (class-based operation), `select .. from instances of A`
+        cls = r.choice(['A', 'B'])
+        fname = cls if same else cls.lower()
+        small('function', fname, None, 3)
+        small('classop', 'cq', cls, 6)
+        pre += [['assign', 'v2', ['callf', fname, []]], ['assign', 'v3', ['calln', cls, 'cq', []]],
+                ['select_from', 'many', 'qs9', cls, None]]
+        other = ['bin', '+', ['bin', '+', ['var', 'v2'], ['var', 'v3']], ['un', 'cardinality', ['var', 'qs9']]]
+    body = pre + [['return', ['bin', '+', ['var', 'v1'], other]]]
     sig = _sig('function', 'clash' if same else 'casepair', None, [], 'integer', c['pure'])
-    sig.update(recursive=False, level=1 + max(x['level'] for x in callables), body=body, text=G.render(body), clash=what)
+    sig.update(recursive=False, level=1 + lvl, body=body, text=G.render(body), clash=what)
     return sig
 
 
@@ -763,7 +810,7 @@ def generate(ctx):
         ctx.count('generated')
         case = make_case(i, callables, enums, consts, pop, entries, r.fork('shuffle').randint(0, 10 ** 9))
         case['family'] = family
-        if i % 4 == 1 and prev is not None and family not in ('shadow', 'clash'):
+        if i % 4 == 1 and prev is not None:
             case['decoy'] = prev
         prev = {'sql': case['sql'], 'entries': [(e[:3] if e[0] == 'fn' else list(e)) for e in entries if e[0] in ('fn', 'brg', 'cop')][:3]}
         batch.append(case)
@@ -832,49 +879,6 @@ def run_impl(case):
     calls = {'n': 0, 'depth': 0, 'max': 0, 'kinds': {}}
     _CALLS = calls
     values = []
-    if case.get('family') in ('shadow', 'clash'):
-        # the families whose failure has a name of its own
-        fam = case['family']
-        other = None
-        try:
-            v = domain.find_symbol(fam)()
-            err = None
-        except (TypeError, AttributeError) as ex:
-            v, err = None, '%s: %s' % (type(ex).__name__, ex)
-            if fam == 'clash' and not (isinstance(ex, TypeError) and 'not callable' in str(ex)):
-                other = ex
-        except Exception as ex:
-            v, err, other = None, None, ex
-        finally:
-            _CALLS = None
-        if other is not None or (fam == 'clash' and err is None):
-            # not the clash itself (the hidden function was invoked, or something else went wrong): the ordinary
-            # judgement with the ordinary signatures
-            raised = None
-            values = [v]
-            if other is not None:
-                raised = (0, '%s: %s' % (type(other).__name__, str(other)[:200]))
-                values = [_Raised(type(other).__name__)]
-            r = _judge(case, canon_impl(domain, values), calls, raised)
-            r.setdefault('stats', {})['family_' + fam] = 1
-            return r
-        obs = canon_impl(domain, [v])
-        fails = []
-        exp = case.get('expect')
-        if exp is None:
-            raise RuntimeError('case %r carries no expectation of the reference semantics' % (case.get('id'),))
-        if err is not None or obs != exp:
-            sig, lead = {'shadow': ('invocation-shadowed-by-local-variable',
-                                    'a local variable named like the function / external entity it invokes shadows it'),
-                         'clash': ('cross-kind-name-clash',
-                                   'a constant / enumeration named like a function hides it (or is hidden by it): one symbol '
-                                   'dictionary for functions, enumerations, constants and external entities')}[fam]
-            fails.append({'sig': sig,
-                          'what': '%s: %s\n%s' % (lead, err or ('delivered %r, the bodies specify %r' % (obs[1], exp[1])),
-                                                  '\n'.join('--- %s %s\n%s' % (c['kind'], c['name'], c['text']) for c in case['callables']))})
-            if err is not None:
-                obs = exp       # the correspondence is not the point of these families
-        return {'obs': obs, 'd_fail': fails, 'nontrivial': True, 'key': case['sql'], 'stats': {'family_' + fam: 1}}
     raised = None
     decoy = case.get('decoy')
     half = len(case['entries']) // 2
@@ -931,12 +935,21 @@ class _Raised(object):
         self.name = name
 
 
+def _find(domain, name, kind):
+    """`Domain.find_symbol(name)` without a kind delivers the symbol registered LAST under that name (whatever it is);
+    the harness asks for the kind it means (a repository without the kind argument is asked the old way)"""
+    try:
+        return domain.find_symbol(name, kind)
+    except TypeError:
+        return domain.find_symbol(name)
+
+
 def _invoke(domain, insts, e):
     k = e[0]
     if k == 'fn':
-        return domain.find_symbol(e[1])(**e[2])
+        return _find(domain, e[1], 'function')(**e[2])
     if k == 'brg':
-        return getattr(domain.find_symbol(e[1]), e[2])(**e[3])
+        return getattr(_find(domain, e[1], 'external entity'), e[2])(**e[3])
     if k == 'cop':
         return getattr(domain.find_class(e[1]), e[2])(**e[3])
     if k == 'iop':
@@ -953,8 +966,8 @@ def _invoke(domain, insts, e):
         _xtuml.unrelate(insts[e[1]][e[2]], insts[e[3]][e[4]], 1)
         return None
     if k == 'enum':
-        return getattr(domain.find_symbol(e[1]), e[2])
-    return domain.find_symbol(e[1])
+        return getattr(_find(domain, e[1], 'enumeration'), e[2])
+    return _find(domain, e[1], 'constant')
 
 
 def _judge(case, obs, calls, raised):
@@ -988,7 +1001,13 @@ def _judge(case, obs, calls, raised):
                                                         ', '.join('%s: %s' % p for p in c['params']), c['ret'],
                                                         ' [pure]' if c['pure'] else '', c['text'])
                          for c in case['callables'])
-        fails.append({'sig': 'differs-from-spec:' + comp,
+        sig = 'differs-from-spec:' + comp
+        if (case.get('family') == 'clash' and raised is not None and raised[1].startswith('AttributeError')
+                and "'function' object has no attribute" in raised[1]
+                and any(c.get('clash') == 'class/function' for c in case['callables'])):
+            # a function named like a class hides the class from `Class::operation()`: the one clash that is left
+            sig = 'class-function-name-clash'
+        fails.append({'sig': sig,
                       'what': '%s\nentries: %r\npopulation: %r\nenums (modeled order): %r consts: %r\n%s' % (
                           what, case['entries'], case['pop'], case['enums'], case['consts'], text)})
     stats = {'invocations_from_python': len(case['entries']), 'walkers': calls['n'],
